@@ -146,6 +146,14 @@ impl Check for C14 {
     fn required_counters(&self, _t: Tier) -> Vec<&'static str> {
         vec!["round_trips", "bytes_serialised", "queries_compared", "grammars_with_conflicts", "grammars_without_conflicts", "grammars_with_avoid_insert", "generated_modules_reconstituted", "long_production_grammars"]
     }
+    fn sanitizer_leg(&self, tier: Tier, _seed: u64) -> Option<Leg> {
+        // the serialise -> reconstitute round trip is where grmtools' (all safe) code hands its data to
+        // dependency `unsafe` (wincode's readers/writers, vob, sparsevec): run it under Miri
+        if tier != Tier::Thorough {
+            return None;
+        }
+        Some(run_miri_leg("OK roundtrip", 6, 1, std::time::Duration::from_secs(1500)))
+    }
     fn run_case(&self, seed: u64, idx: u64, _tier: Tier) -> CaseOut {
         let mut out = CaseOut::new();
         let mut rng = Rng::derive(seed, "C14", idx, 0);
